@@ -41,6 +41,7 @@ def _make_env(fn, with_interaction, with_weight):
         C = [PyObjV("Compartment", mm, {"id": ("pop%d" % k, "c"), "vals": series("c%d" % k)}) for k in range(2)]
         w = [[z3.Real("w_%d_%d" % (i, j)) for j in range(2)] for i in range(2)]
         self = PyObjV("Model", mm, {"_vars_by_pop": {"p": pars, "v": V, "c": C}, "t": series("t"), "interactions": None})
+        # W is the MODEL's own slice of the interaction array (a view: updating it in place changes the model)
         W = LArr2(2, 2, lambda i, j: w[i][j]) if with_interaction else LArr2(2, 2, lambda i, j: z3.RealVal(1))
         return {"self": self, "pars": pars, "ti": ti, "W": W, "w": w if with_interaction else [[1, 1], [1, 1]], "sf": sf, "V": V, "C": C, "P": pars}
 
@@ -67,12 +68,13 @@ for _fn in ("SRC_POP_AVG", "SRC_POP_SUM", "TGT_POP_AVG", "TGT_POP_SUM"):
     for _wi, _ww, _tag in ((False, False, "plain"), (True, False, "interaction"), (True, True, "interaction_and_weight")):
         CONTRACTS["model:Model.update_pars#%s_%s" % (_fn.lower(), _tag)] = dict(
             schema=schema, fragment={"iter": "self._exec_order['dynamic_pars']", "stmt": "if pars[0].pop_aggregation"}, make_env=_make_env(_fn, _wi, _ww), class_module="model",
-            stubs={"self.interactions[pars[0].pop_aggregation[2]][:, :, ti].copy()": "W"},
+            stubs={"self.interactions[pars[0].pop_aggregation[2]][:, :, ti]": "W"},
             ensures=[
                 ("C06.cross_population_aggregate_is_the_stated_function_of_same_step_values", _spec(_fn, _ww)),
+                ("C06+C10+C08.the_models_interaction_weights_are_not_modified", "all(W[i][j] == w[i][j] for i in range(2) for j in range(2))"),
                 ("C06.only_the_current_step_of_the_aggregating_parameter_is_written", "all(implies(i != ti, P[0].vals[i] == old(P[0].vals[i]) and P[1].vals[i] == old(P[1].vals[i])) for i in range(len(P[0].vals)))"),
             ],
-            defined_props=["C06"])
+            defined_props=["C06", "C10", "C08"])
 
 
 def _replay(model, contract):
